@@ -70,7 +70,7 @@ def handle (j : Json) : Except String Verdict := do
   match sizeOfObj i with
   | some (mw, mh) =>
     if kind == "unit" && !(close mw W && close mh H) then
-      return .mismatch s!"size:{dsl}" s!"{desc}, model {mw}x{mh}"
+      return .mismatch "size" s!"{desc}, model {mw}x{mh}"
   | none => pure ()
   return .ok
 
